@@ -195,6 +195,10 @@ theorem take_drop_append_of_le {α} (l m : List α) (i j : Nat) (h : i + j ≤ l
   rw [List.drop_append_of_le_length (by omega)]
   rw [List.take_append_of_le_length (by simp; omega)]
 
+theorem take_eq_take_length {α} (m : Nat) (X : List α) : X.take m = X.take (X.take m).length := by
+  rw [List.length_take]
+  exact List.take_eq_take_min
+
 theorem take_drop_glue {α} (l : List α) (i j k : Nat) :
     (l.drop i).take j ++ (l.drop (i + j)).take k = (l.drop i).take (j + k) := by
   rw [List.take_add, List.drop_drop]
@@ -367,7 +371,8 @@ theorem DInv.rdbAppend {s : Disk} (h : DInv s) (chunk : Bytes)
     by_cases hw : r.writing = true
     · simp only [hw, if_true]
       have hshape := h.rdbShape r hr
-      have hlen := hsz r hr hw
+      have hlen : r.data.length + chunk.length ≤ r.size := by
+        rw [hr] at hsz; exact hsz hw
       have hclen : 0 < chunk.length := List.length_pos_iff.mpr hne
       -- the two outcomes share everything but the flags
       have key : ∀ (r2 : DRdb), r2.left = r.left → r2.data = r.data ++ chunk →
@@ -821,5 +826,900 @@ theorem DInv.aofAppend {s : Disk} (h : DInv s) (chunk : Bytes) (hok : s.okOp (.a
     cases ok with
     | true => simpa using this
     | false => simpa using h
+
+/-! ### collector -/
+
+theorem dropUnref_suffix (rs : List DReader) (k : Nat) (segs : List DSeg) :
+    ∃ pre, segs = pre ++ dropUnref rs k segs ∧ ∀ g ∈ pre, readerRefs rs g.left = 0 := by
+  induction segs generalizing k with
+  | nil => exact ⟨[], by cases k <;> simp [dropUnref], by simp⟩
+  | cons a t ih =>
+    cases k with
+    | zero => exact ⟨[], by simp [dropUnref], by simp⟩
+    | succ k =>
+      simp only [dropUnref]
+      by_cases href : readerRefs rs a.left > 0
+      · simp only [href, if_true]; exact ⟨[], by simp, by simp⟩
+      · simp only [href]
+        obtain ⟨pre, hp, hz⟩ := ih k
+        refine ⟨a :: pre, by simp; exact hp, ?_⟩
+        intro g hg
+        rcases List.mem_cons.mp hg with h | h
+        · subst h; omega
+        · exact hz g h
+
+theorem gcScanRev_pos (max : Nat) (l : List DSeg) (size : Nat) :
+    (gcScanRev max l size).1 > 0 → (gcScanRev max l size).2 > max := by
+  induction l generalizing size with
+  | nil => simp [gcScanRev]
+  | cons a t ih =>
+    simp only [gcScanRev]
+    split
+    · intro _; assumption
+    · exact ih _
+
+theorem readerRefs_pos_of_cur {rs : List DReader} {r : DReader} (hr : r ∈ rs) (ho : r.isOpen = true)
+    (ha : r.isAof = true) : readerRefs rs r.cur > 0 := by
+  unfold readerRefs
+  have : 0 < (rs.filter (fun x => x.isOpen && x.isAof && x.cur == r.cur)).length :=
+    List.length_filter_pos_iff.mpr ⟨r, hr, by simp [ho, ha]⟩
+  omega
+
+theorem readerRefs_pos_of_prev {rs : List DReader} {r : DReader} {p : Nat} (hr : r ∈ rs)
+    (ho : r.isOpen = true) (ha : r.isAof = true) (hp : r.prev = some p) : readerRefs rs p > 0 := by
+  unfold readerRefs
+  have : 0 < (rs.filter (fun x => x.isOpen && x.isAof && x.prev == some p)).length :=
+    List.length_filter_pos_iff.mpr ⟨r, hr, by simp [ho, ha, hp]⟩
+  omega
+
+/-- dropping an unreferenced prefix of the closed segments keeps the invariant -/
+theorem DInv.dropPrefix {s : Disk} (h : DInv s) (pre segs' : List DSeg) (rdb' : Option DRdb)
+    (hsegs : s.segs = pre ++ segs') (hz : ∀ g ∈ pre, readerRefs s.readers g.left = 0)
+    (hrdb : rdb' = s.rdb ∨ (rdb' = none ∧ ∀ r, s.rdb = some r → rdbReaderRefs s.readers = 0))
+    (halign : rdb' = none ∨ pre = []) :
+    DInv { s with segs := segs', rdb := rdb' } := by
+  have hall : s.all = pre ++ ({ s with segs := segs', rdb := rdb' } : Disk).all := by
+    simp [Disk.all, hsegs]
+  constructor
+  · exact contig_suffix pre _ (hall ▸ h.contig)
+  · intro g hg; exact h.nonempty g (by rw [hsegs]; simp; right; exact hg)
+  · intro g hg; exact h.embed g (by rw [hall]; simp; right; exact hg)
+  · intro r hr
+    apply h.lastEnd
+    rw [hall, lastRight_suffix]
+    · exact hr
+    · intro hnil; rw [hnil] at hr; simp [lastRight] at hr
+  · intro r l hr hfl
+    rcases halign with hn | hp
+    · rw [hn] at hr; simp at hr
+    · subst hp
+      simp at hall hsegs
+      rcases hrdb with hr1 | hr1
+      · apply h.rdbAlign r l (by rw [← hr1]; exact hr)
+        rw [hall]; exact hfl
+      · rw [hr1.1] at hr; simp at hr
+  · intro r hr
+    rcases hrdb with hr1 | hr1
+    · exact h.rdbShape r (by rw [← hr1]; exact hr)
+    · rw [hr1.1] at hr; simp at hr
+  · exact h.ids
+  · intro x hx ho
+    obtain ⟨h1, h2⟩ := h.readersOk x hx ho
+    refine ⟨fun ha => ?_, fun ha => ?_⟩
+    · obtain ⟨⟨g0, hg0, hc0, hb0⟩, hprev, hrest⟩ := h1 ha
+      have keep : ∀ g1 ∈ s.all, readerRefs s.readers g1.left > 0 →
+          g1 ∈ ({ s with segs := segs', rdb := rdb' } : Disk).all := by
+        intro g1 hg1 hpos
+        rw [hall] at hg1
+        rcases List.mem_append.mp hg1 with hm | hm
+        · have := hz g1 hm; omega
+        · exact hm
+      refine ⟨⟨g0, keep g0 hg0 ?_, hc0, hb0⟩, ?_, hrest⟩
+      · rw [hc0]; exact readerRefs_pos_of_cur hx ho ha
+      · intro p hp
+        obtain ⟨g1, hg1, hl1⟩ := hprev p hp
+        exact ⟨g1, keep g1 hg1 (by rw [hl1]; exact readerRefs_pos_of_prev hx ho ha hp), hl1⟩
+    · obtain ⟨rd, hrd, hrest⟩ := h2 ha
+      rcases hrdb with hr1 | hr1
+      · exact ⟨rd, by rw [hr1]; exact hrd, hrest⟩
+      · have hzero := hr1.2 rd hrd
+        unfold rdbReaderRefs at hzero
+        have : 0 < (s.readers.filter (fun r => r.isOpen && !r.isAof)).length :=
+          List.length_filter_pos_iff.mpr ⟨x, hx, by simp [ho, ha]⟩
+        omega
+
+theorem DInv.gc {s : Disk} (h : DInv s) : DInv s.gc := by
+  unfold Disk.gc
+  by_cases hm : s.maxSize = 0
+  · simp only [hm, if_true]; exact h
+  · simp only [hm, if_false]
+    generalize hk : gcScanRev s.maxSize s.all.reverse 0 = ks
+    obtain ⟨k, size⟩ := ks
+    simp only []
+    obtain ⟨pre, hp, hz⟩ := dropUnref_suffix s.readers k s.segs
+    cases hr : s.rdb with
+    | none =>
+      simp only []
+      exact h.dropPrefix pre (dropUnref s.readers k s.segs) none hp hz (Or.inl hr.symm) (Or.inl rfl)
+    | some r =>
+      simp only []
+      by_cases hbig : size + r.size > s.maxSize
+      · simp only [hbig, if_true]
+        by_cases href : rdbRef s.readers r = 0
+        · simp only [href, if_true]
+          have := h.dropPrefix pre (dropUnref s.readers k s.segs) none hp hz
+            (Or.inr ⟨rfl, fun r' hr' => by
+              rw [hr] at hr'; cases hr'
+              unfold rdbRef at href; omega⟩) (Or.inl rfl)
+          exact this
+        · simp only [href, if_false]; exact h
+      · simp only [hbig, if_false]
+        -- nothing was over the limit: the scan selected no segment
+        have hk0 : k = 0 := by
+          have := gcScanRev_pos s.maxSize s.all.reverse 0
+          rw [hk] at this
+          simp only [] at this
+          by_cases hkz : k = 0
+          · exact hkz
+          · have := this (by omega); omega
+        subst hk0
+        have hd : dropUnref s.readers 0 s.segs = s.segs := by
+          cases s.segs <;> rfl
+        rw [hd]
+        exact h.dropPrefix [] s.segs (some r) (by simp) (by simp) (Or.inl hr.symm) (Or.inr rfl)
+
+/-! ### readers -/
+
+theorem indexAof_some {segs : List DSeg} {off : Nat} {g : DSeg} (h : indexAof segs off = some g) :
+    g ∈ segs ∧ g.left ≤ off ∧ off ≤ g.right := by
+  unfold indexAof at h
+  have h1 := List.mem_of_find?_eq_some h
+  have h2 := List.find?_some h
+  simp at h1 h2
+  exact ⟨h1, h2.1, h2.2⟩
+
+/-- adding a reader that satisfies its obligations -/
+theorem DInv.pushReader {s : Disk} (h : DInv s) (r : DReader) (hid : r.id ∉ s.readers.map (·.id))
+    (hr : ROk s r) : DInv { s with readers := s.readers ++ [r] } := by
+  constructor
+  · exact h.contig
+  · exact h.nonempty
+  · exact h.embed
+  · exact h.lastEnd
+  · exact h.rdbAlign
+  · exact h.rdbShape
+  · show ((s.readers ++ [r]).map (·.id)).Nodup
+    rw [List.map_append, List.nodup_append]
+    refine ⟨h.ids, by simp, ?_⟩
+    intro a ha b hb
+    simp at hb; subst hb
+    intro e; subst e; exact hid ha
+  · intro x hx
+    have hx' : x ∈ s.readers ++ [r] := hx
+    rcases List.mem_append.mp hx' with hm | hm
+    · exact ROk_congr rfl rfl rfl rfl (h.readersOk x hm)
+    · simp at hm; subst hm; exact ROk_congr rfl rfl rfl rfl hr
+
+theorem DInv.openReader {s : Disk} (h : DInv s) (rid off : Nat) (crcOk : Bool) :
+    DInv (s.open rid off crcOk).1 := by
+  unfold Disk.open
+  cases hf : findReader s.readers rid with
+  | some r0 => simpa using h
+  | none =>
+    have hid := findReader_none hf
+    simp only [Option.isSome_none, Bool.false_eq_true, if_false]
+    split
+    · exact h
+    · cases hi : indexAof s.all off with
+      | some g =>
+        simp only []
+        obtain ⟨hg, hl, hr⟩ := indexAof_some hi
+        apply h.pushReader _ hid
+        intro _
+        refine ⟨fun _ => ?_, fun hf => by simp at hf⟩
+        refine ⟨⟨g, hg, rfl, hl, hr⟩, by simp, ?_, Nat.le_refl _, by simp⟩
+        have := (h.embed g hg).1
+        show s.hbase ≤ off
+        omega
+      | none =>
+        simp only []
+        cases hrd : s.rdb with
+        | none => simpa using h
+        | some rd =>
+          simp only []
+          split
+          · split
+            · exact h
+            · show DInv { s with rdb := some rd, readers := s.readers ++ [_] }
+              rw [← hrd]
+              apply h.pushReader _ hid
+              intro _
+              refine ⟨fun hf => by simp at hf, fun _ => ?_⟩
+              exact ⟨rd, hrd, by simp, by simp⟩
+          · exact h
+
+/-- replacing reader `r0` by an updated version that satisfies its obligations -/
+theorem DInv.replaceReader {s : Disk} (h : DInv s) (r0 r : DReader) (hm : r0 ∈ s.readers)
+    (hid : r.id = r0.id) (hr : ROk s r) : DInv { s with readers := setReader s.readers r } := by
+  constructor
+  · exact h.contig
+  · exact h.nonempty
+  · exact h.embed
+  · exact h.lastEnd
+  · exact h.rdbAlign
+  · exact h.rdbShape
+  · show ((setReader s.readers r).map (·.id)).Nodup
+    rw [setReader_ids]; exact h.ids
+  · intro x hx
+    rcases mem_setReader hx with he | ⟨hx', _⟩
+    · subst he; exact ROk_congr rfl rfl rfl rfl hr
+    · exact ROk_congr rfl rfl rfl rfl (h.readersOk x hx')
+
+theorem DInv.closeReader {s : Disk} (h : DInv s) (rid : Nat) : DInv (s.closeReader rid).1 := by
+  unfold Disk.closeReader
+  cases hf : findReader s.readers rid with
+  | none => simpa using h
+  | some r =>
+    simp only []
+    obtain ⟨hm, _⟩ := findReader_some hf
+    exact h.replaceReader r r.close hm rfl (ROk_of_closed rfl)
+
+theorem DInv.advRelease {s : Disk} (h : DInv s) (rid : Nat) : DInv (s.advRelease rid).1 := by
+  unfold Disk.advRelease
+  cases hf : findReader s.readers rid with
+  | none => simpa using h
+  | some r =>
+    simp only []
+    obtain ⟨hm, _⟩ := findReader_some hf
+    split
+    · refine h.replaceReader r _ hm ?_ ?_
+      · rfl
+      intro ho
+      have ho : r.isOpen = true := ho
+      obtain ⟨h1, h2⟩ := h.readersOk r hm ho
+      refine ⟨fun ha => ?_, fun ha => h2 ha⟩
+      obtain ⟨hc, _, hrest⟩ := h1 ha
+      exact ⟨hc, by simp, hrest⟩
+    · exact h
+
+theorem DInv.advAcquire {s : Disk} (h : DInv s) (rid : Nat) : DInv (s.advAcquire rid).1 := by
+  unfold Disk.advAcquire
+  cases hf : findReader s.readers rid with
+  | none => simpa using h
+  | some r =>
+    simp only []
+    obtain ⟨hm, _⟩ := findReader_some hf
+    split
+    · rename_i hca
+      unfold Disk.canAdvance at hca
+      simp only [Bool.and_eq_true] at hca
+      obtain ⟨⟨⟨⟨ho, ha⟩, _⟩, hcur⟩, hnext⟩ := hca
+      refine h.replaceReader r _ hm ?_ ?_
+      · rfl
+      intro _
+      obtain ⟨h1, _⟩ := h.readersOk r hm ho
+      obtain ⟨⟨g0, hg0, hc0, hb0⟩, _, hs, hp, hout⟩ := h1 ha
+      refine ⟨fun _ => ?_, fun hf' => by rw [ha] at hf'; cases hf'⟩
+      cases hn : findSeg s.all r.pos with
+      | none => rw [hn] at hnext; simp at hnext
+      | some g2 =>
+        obtain ⟨hg2, hl2⟩ := findSeg_some hn
+        refine ⟨⟨g2, hg2, hl2, by show g2.left ≤ r.pos; omega, by show r.pos ≤ g2.right; simp only [DSeg.right]; omega⟩, ?_, hs, hp, hout⟩
+        intro p hp'
+        simp at hp'; subst hp'
+        exact ⟨g0, hg0, hc0⟩
+    · exact h
+
+theorem DInv.read {s : Disk} (h : DInv s) (rid n : Nat) : DInv (s.read rid n).1 := by
+  unfold Disk.read
+  cases hf : findReader s.readers rid with
+  | none => simpa using h
+  | some r =>
+    simp only []
+    obtain ⟨hm, _⟩ := findReader_some hf
+    by_cases ho : r.isOpen = true
+    · simp only [ho, Bool.not_true, Bool.false_eq_true, if_false]
+      obtain ⟨h1, h2⟩ := h.readersOk r hm ho
+      by_cases ha : r.isAof = true
+      · simp only [ha, if_true]
+        obtain ⟨⟨g0, hg0, hc0, hl0, hr0⟩, hprev, hs, hp, hout⟩ := h1 ha
+        have hfs : findSeg s.all r.cur = some g0 := by
+          rw [← hc0]; exact findSeg_of_mem h.contig (all_initNonempty h.nonempty) hg0
+        simp only [hfs]
+        split
+        · exact h
+        · refine h.replaceReader r _ hm ?_ ?_
+          · rfl
+          intro _
+          refine ⟨fun _ => ?_, fun hf' => by simp [ha] at hf'⟩
+          obtain ⟨e1, e2, e3⟩ := h.embed g0 hg0
+          have hlen : ((g0.data.drop (r.pos - g0.left)).take n).length ≤ g0.data.length - (r.pos - g0.left) := by
+            simp; omega
+          refine ⟨⟨g0, hg0, hc0, ?_, ?_⟩, hprev, hs, ?_, ?_⟩
+          · show g0.left ≤ r.pos + _; omega
+          · show r.pos + _ ≤ g0.right
+            simp only [DSeg.right] at hr0 ⊢; omega
+          · show r.start ≤ r.pos + _; omega
+          · show r.out ++ _ = _
+            -- the bytes read are the history's bytes at `pos`
+            have hdrop : g0.data.drop (r.pos - g0.left) =
+                (s.hist.drop (r.pos - s.hbase)).take (g0.data.length - (r.pos - g0.left)) := by
+              conv => lhs; rw [e3]
+              rw [List.drop_take, List.drop_drop]
+              congr 2
+              omega
+            have hbs : (g0.data.drop (r.pos - g0.left)).take n =
+                (s.hist.drop (r.pos - s.hbase)).take ((g0.data.drop (r.pos - g0.left)).take n).length := by
+              rw [hdrop, List.take_take]
+              exact take_eq_take_length _ _
+            generalize hk : ((g0.data.drop (r.pos - g0.left)).take n).length = k at hbs ⊢
+            rw [hout, hbs]
+            have hidx : r.pos - s.hbase = (r.start - s.hbase) + (r.pos - r.start) := by omega
+            rw [hidx, take_drop_glue]
+            congr 1
+            show r.pos - r.start + k = r.pos + k - r.start
+            omega
+      · have ha' : r.isAof = false := by simpa using ha
+        simp only [ha', Bool.false_eq_true, if_false]
+        obtain ⟨rd, hrd, hp, hout⟩ := h2 ha'
+        simp only [hrd]
+        split
+        · exact h
+        · show DInv { s with rdb := some rd, readers := setReader s.readers _ }
+          rw [← hrd]
+          refine h.replaceReader r _ hm ?_ ?_
+          · rfl
+          intro _
+          refine ⟨fun hf' => by simp [ha'] at hf', fun _ => ?_⟩
+          refine ⟨rd, hrd, ?_, ?_⟩
+          · show r.pos + _ ≤ rd.data.length
+            simp; omega
+          · show r.out ++ (rd.data.drop r.pos).take n =
+              rd.data.take (r.pos + ((rd.data.drop r.pos).take n).length)
+            rw [hout, List.take_add]
+            congr 1
+            exact take_eq_take_length _ _
+    · have ho' : r.isOpen = false := by simpa using ho
+      simp only [ho', Bool.not_false, if_true]; exact h
+
+/-! ### re-scan -/
+
+theorem contigRun_of_contig {l : List DSeg} (hc : Contig l) : contigRun l = l := by
+  induction l with
+  | nil => rfl
+  | cons a t ih =>
+    cases t with
+    | nil => rfl
+    | cons b u =>
+      have := ih hc.2
+      simp only [contigRun, this]
+      simp [hc.1]
+
+theorem contigRun_suffix (l : List DSeg) : ∃ pre, l = pre ++ contigRun l := by
+  induction l with
+  | nil => exact ⟨[], rfl⟩
+  | cons a t ih =>
+    cases t with
+    | nil => exact ⟨[], rfl⟩
+    | cons b u =>
+      obtain ⟨pre, hp⟩ := ih
+      simp only [contigRun]
+      split
+      · rename_i hcond
+        -- the whole tail was kept
+        have hlen := hcond.1
+        have : pre = [] := by
+          have h2 := congrArg List.length hp
+          rw [List.length_append] at h2
+          exact List.eq_nil_of_length_eq_zero (by omega)
+        subst this
+        simp at hp
+        exact ⟨[], by simp; exact hp⟩
+      · exact ⟨a :: pre, by simp; exact hp⟩
+
+theorem contigRun_contig (l : List DSeg) : Contig (contigRun l) := by
+  induction l with
+  | nil => trivial
+  | cons a t ih =>
+    cases t with
+    | nil => trivial
+    | cons b u =>
+      simp only [contigRun]
+      split
+      · rename_i hcond
+        -- kept everything: the run is `b :: u`
+        obtain ⟨pre, hp⟩ := contigRun_suffix (b :: u)
+        have : pre = [] := by
+          have h2 := congrArg List.length hp
+          rw [List.length_append] at h2
+          have h3 := hcond.1
+          exact List.eq_nil_of_length_eq_zero (by omega)
+        subst this
+        simp at hp
+        rw [← hp]
+        exact ⟨hcond.2, hp ▸ ih⟩
+      · exact ih
+
+theorem insertSeg_le_head (g : DSeg) (l : List DSeg) (h : ∀ x ∈ l, g.left ≤ x.left) :
+    insertSeg g l = g :: l := by
+  cases l with
+  | nil => rfl
+  | cons a t => simp [insertSeg, h a (by simp)]
+
+theorem sortSegs_of_sorted {l : List DSeg} (hc : Contig l) (hn : InitNonempty l) : sortSegs l = l := by
+  induction l with
+  | nil => rfl
+  | cons a t ih =>
+    show insertSeg a (sortSegs t) = a :: t
+    rw [ih hc.tail hn.tail]
+    apply insertSeg_le_head
+    intro x hx
+    exact Nat.le_of_lt (contig_head_lt hc hn hx)
+
+theorem rescan_eq_self {s : Disk} (h : DInv s) (hlive : s.live = none)
+    (hrdb : ∀ r, s.rdb = some r → r.writing = false) : s.rescan = s := by
+  have hall : s.all = s.segs := by simp [Disk.all, hlive]
+  have hcs : Contig s.segs := hall ▸ h.contig
+  have hin : InitNonempty s.segs := hall ▸ all_initNonempty h.nonempty
+  have hfil : s.all.filter (fun g => !g.data.isEmpty) = s.segs := by
+    rw [hall]
+    apply List.filter_eq_self.mpr
+    intro g hg
+    have := h.nonempty g hg
+    simp [List.isEmpty_iff]; exact this
+  unfold Disk.rescan truncateGap
+  simp only [hfil, sortSegs_of_sorted hcs hin, contigRun_of_contig hcs, Nat.lt_irrefl, if_false]
+  cases hr : s.rdb with
+  | none =>
+    simp only []
+    cases s; simp_all
+  | some r =>
+    have hw := hrdb r hr
+    have hf := ((h.rdbShape r hr).2.2 hw).1
+    simp only [hf, if_true]
+    have hr' : ({ left := r.left, size := r.size, data := r.data, writing := false, final := true } : DRdb) = r := by
+      cases r; simp_all
+    rw [hr']
+    cases hsg : s.segs with
+    | nil =>
+      simp only []
+      cases s; simp_all
+    | cons f t =>
+      have : r.left = f.left := h.rdbAlign r f.left hr (by rw [hall, hsg]; rfl)
+      simp only [this, if_true]
+      cases s; simp_all
+
+/-! ### every step keeps the invariant -/
+
+theorem DInv.step {s : Disk} (h : DInv s) (op : DOp) (hok : s.okOp op) : DInv (s.step op).1 := by
+  cases op with
+  | setRunId id =>
+    simp only [Disk.step]
+    split
+    · exact h.reset.with_runId id
+    · rename_i hne
+      obtain ⟨_, hl, hr⟩ := hok hne
+      rw [rescan_eq_self h hl (fun r hr' => by rw [hr'] at hr; exact hr)]
+      exact h.with_runId id
+  | delRunId =>
+    simp only [Disk.step]
+    split
+    · exact h
+    · exact h.reset.with_runId ""
+  | newRdbWriter off size => exact h.newRdbWriter off size hok
+  | rdbAppend chunk => exact h.rdbAppend chunk hok
+  | rdbClose => exact h.rdbClose
+  | newAofWriter off => exact h.newAofWriter off hok
+  | aofAppend chunk => exact h.aofAppend chunk hok
+  | aofClose => exact h.closeLive
+  | gc => exact h.gc
+  | openReader rid off crcOk => exact h.openReader rid off crcOk
+  | read rid n => exact h.read rid n
+  | advAcquire rid => exact h.advAcquire rid
+  | advRelease rid => exact h.advRelease rid
+  | closeReader rid => exact h.closeReader rid
+
+theorem DInv.run {s : Disk} (h : DInv s) (ops : List DOp) (hwf : s.wf ops) : DInv (s.run ops) := by
+  induction ops generalizing s with
+  | nil => exact h
+  | cons op rest ih => exact ih (h.step op hwf.1) hwf.2
+
+/-! ### the ghost history -/
+
+theorem appendLive_spec (s : Disk) (chunk : Bytes) :
+    (s.appendLive chunk = (s, false)) ∨
+    ((s.appendLive chunk).2 = true ∧ (s.appendLive chunk).1.hbase = s.hbase ∧
+      (s.appendLive chunk).1.hist = s.hist ++ chunk) := by
+  unfold Disk.appendLive
+  split
+  · left; rfl
+  · right; simp only []; split <;> simp
+
+theorem appendLive_readers (s : Disk) (chunk : Bytes) : (s.appendLive chunk).1.readers = s.readers := by
+  unfold Disk.appendLive
+  split
+  · rfl
+  · simp only []; split <;> rfl
+
+theorem hist_step (s : Disk) (op : DOp) :
+    ((s.step op).1.hbase = s.hbase ∧ (s.step op).1.hist = s.hist) ∨
+    (∃ chunk, op = .aofAppend chunk ∧ (s.step op).2 = .ok ∧
+        (s.step op).1.hbase = s.hbase ∧ (s.step op).1.hist = s.hist ++ chunk) ∨
+    (s.step op).1.hist = [] := by
+  cases op with
+  | aofAppend chunk =>
+    rcases appendLive_spec s chunk with h | ⟨h1, h2, h3⟩
+    · left; simp [Disk.step, h]
+    · right; left
+      refine ⟨chunk, rfl, ?_⟩
+      simp only [Disk.step]
+      cases hp : s.appendLive chunk with
+      | mk s' ok =>
+        rw [hp] at h1 h2 h3
+        simp only [] at h1 h2 h3
+        subst h1
+        simp [h2, h3]
+  | setRunId id =>
+    simp only [Disk.step]
+    split
+    · right; right; rfl
+    · left; simp only [Disk.rescan, truncateGap]; repeat' split
+      all_goals simp
+  | delRunId => simp only [Disk.step]; split; (left; simp); (right; right; rfl)
+  | newRdbWriter off size => right; right; rfl
+  | rdbAppend chunk => left; simp only [Disk.step]; repeat' split
+                       all_goals simp
+  | rdbClose => left; simp only [Disk.step]; repeat' split
+                all_goals simp
+  | newAofWriter off =>
+    simp only [Disk.step]
+    obtain ⟨h1, h2, _⟩ := closeLive_hist s
+    split
+    · rename_i r hr
+      by_cases he : r = off
+      · left; simp [he]
+      · right; right; simp [he]
+    · right; right; simp
+  | aofClose => obtain ⟨h1, h2, _⟩ := closeLive_hist s; left; simp [Disk.step, h1, h2]
+  | gc => left; simp only [Disk.step, Disk.gc]; repeat' split
+          all_goals simp
+  | openReader rid off crcOk => left; simp only [Disk.step, Disk.open]; repeat' split
+                                all_goals simp
+  | read rid n => left; simp only [Disk.step, Disk.read]; repeat' split
+                  all_goals simp
+  | advAcquire rid => left; simp only [Disk.step, Disk.advAcquire]; repeat' split
+                      all_goals simp
+  | advRelease rid => left; simp only [Disk.step, Disk.advRelease]; repeat' split
+                      all_goals simp
+  | closeReader rid => left; simp only [Disk.step, Disk.closeReader]; repeat' split
+                       all_goals simp
+
+/-! ### valid offsets are readable, offered snapshots are complete -/
+
+theorem inRange_iff_open {s : Disk} (h : DInv s) (rid off : Nat) (hfresh : findReader s.readers rid = none) :
+    s.inRange off = true ↔ (s.open rid off true).2 ≠ Out.notExist := by
+  unfold Disk.open
+  simp only [hfresh, Option.isSome_none, Bool.false_eq_true, if_false]
+  constructor
+  · intro hin
+    simp only [hin, Bool.not_true, Bool.false_eq_true, if_false]
+    cases hi : indexAof s.all off with
+    | some g => simp
+    | none =>
+      simp only []
+      -- no segment covers `off`: then the snapshot must
+      unfold Disk.inRange Disk.range at hin
+      cases hr : s.rdb with
+      | none =>
+        exfalso
+        rw [hr] at hin
+        cases hfl : firstLeft s.all with
+        | none => simp [hfl] at hin
+        | some ll =>
+          cases hlr : lastRight s.all with
+          | none =>
+            have := lastRight_eq_none.mp hlr
+            rw [this] at hfl; simp [firstLeft] at hfl
+          | some rr =>
+            simp only [hfl, hlr] at hin
+            have hcov : ll ≤ off ∧ off ≤ rr := by
+              simp at hin; omega
+            obtain ⟨g, hg, hg1, hg2⟩ := contig_cover h.contig hfl hlr hcov.1 hcov.2
+            unfold indexAof at hi
+            have := List.find?_eq_none.mp hi g (by simpa using hg)
+            simp [hg1, hg2] at this
+      | some rd =>
+        simp only []
+        rw [hr] at hin
+        by_cases hle : off ≤ rd.left
+        · simp [hle]
+        · exfalso
+          cases hfl : firstLeft s.all with
+          | none =>
+            have : lastRight s.all = none := by
+              cases hlr : lastRight s.all with
+              | none => rfl
+              | some rr =>
+                have hne : s.all ≠ [] := by intro hh; rw [hh] at hlr; simp [lastRight] at hlr
+                cases hall : s.all with
+                | nil => exact absurd hall hne
+                | cons a t => rw [hall] at hfl; simp [firstLeft] at hfl
+            simp only [hfl, this] at hin
+            simp at hin
+            omega
+          | some ll =>
+            cases hlr : lastRight s.all with
+            | none =>
+              have := lastRight_eq_none.mp hlr
+              rw [this] at hfl; simp [firstLeft] at hfl
+            | some rr =>
+              have hal := h.rdbAlign rd ll hr hfl
+              simp only [hfl, hlr] at hin
+              have hcov : ll ≤ off ∧ off ≤ rr := by
+                simp at hin
+                omega
+              obtain ⟨g, hg, hg1, hg2⟩ := contig_cover h.contig hfl hlr hcov.1 hcov.2
+              unfold indexAof at hi
+              have := List.find?_eq_none.mp hi g (by simpa using hg)
+              simp [hg1, hg2] at this
+  · intro hne
+    by_cases hin : s.inRange off = true
+    · exact hin
+    · simp [hin] at hne
+
+theorem getRdb_iff {s : Disk} (h : DInv s) :
+    s.getRdb ≠ (-1, -1) ↔
+      ∃ r, s.rdb = some r ∧ ((r.final = true ∧ r.data.length = r.size) ∨ r.writing = true) := by
+  unfold Disk.getRdb
+  cases hr : s.rdb with
+  | none => simp
+  | some r =>
+    simp only []
+    constructor
+    · intro _
+      refine ⟨r, rfl, ?_⟩
+      have := h.rdbShape r hr
+      cases hw : r.writing with
+      | true => right; rfl
+      | false => left; exact this.2.2 hw
+    · intro _ hc
+      have : (r.left : Int) = -1 := by
+        have := congrArg Prod.fst hc
+        simpa using this
+      omega
+
+/-! ### an invalidated reader never delivers again -/
+
+theorem mem_map_close {rs : List DReader} {f : DReader → DReader} {r : DReader}
+    (hf : ∀ x, f x = x ∨ f x = x.close) (hr : r ∈ rs) (hc : r.isOpen = false) :
+    ∃ r' ∈ rs.map f, r'.id = r.id ∧ r'.isOpen = false ∧ r'.out = r.out := by
+  refine ⟨f r, List.mem_map_of_mem hr, ?_⟩
+  rcases hf r with h | h <;> rw [h]
+  · exact ⟨rfl, hc, rfl⟩
+  · exact ⟨rfl, rfl, rfl⟩
+
+theorem mem_setReader_other {rs : List DReader} {r x : DReader} (hx : x ∈ rs) (hne : x.id ≠ r.id) :
+    x ∈ setReader rs r := by
+  unfold setReader
+  refine List.mem_map.mpr ⟨x, hx, ?_⟩
+  have : (x.id == r.id) = false := by simpa using hne
+  simp [this]
+
+theorem eq_of_mem_of_id {rs : List DReader} (hn : (rs.map (·.id)).Nodup) {a b : DReader}
+    (ha : a ∈ rs) (hb : b ∈ rs) (e : a.id = b.id) : a = b := by
+  induction rs with
+  | nil => cases ha
+  | cons x t ih =>
+    simp only [List.map_cons, List.nodup_cons] at hn
+    rcases List.mem_cons.mp ha with h1 | h1 <;> rcases List.mem_cons.mp hb with h2 | h2
+    · rw [h1, h2]
+    · subst h1; exact absurd (List.mem_map.mpr ⟨b, h2, e.symm⟩) hn.1
+    · subst h2; exact absurd (List.mem_map.mpr ⟨a, h1, e⟩) hn.1
+    · exact ih hn.2 h1 h2
+
+theorem closed_reader_frozen {s : Disk} (h : DInv s) (op : DOp) {r : DReader} (hr : r ∈ s.readers)
+    (hc : r.isOpen = false) :
+    ∃ r' ∈ (s.step op).1.readers, r'.id = r.id ∧ r'.isOpen = false ∧ r'.out = r.out := by
+  have same : ∀ s' : Disk, s'.readers = s.readers →
+      ∃ r' ∈ s'.readers, r'.id = r.id ∧ r'.isOpen = false ∧ r'.out = r.out :=
+    fun s' e => ⟨r, e ▸ hr, rfl, hc, rfl⟩
+  have viaSet : ∀ (r0 r1 : DReader), r0 ∈ s.readers → r1.id = r0.id →
+      (r0.isOpen = false → r1.isOpen = false ∧ r1.out = r0.out) →
+      ∃ r' ∈ setReader s.readers r1, r'.id = r.id ∧ r'.isOpen = false ∧ r'.out = r.out := by
+    intro r0 r1 h0 hid hpres
+    by_cases e : r.id = r0.id
+    · have : r = r0 := eq_of_mem_of_id h.ids hr h0 e
+      subst this
+      refine ⟨r1, ?_, hid, (hpres hc).1, (hpres hc).2⟩
+      unfold setReader
+      exact List.mem_map.mpr ⟨r, hr, by simp [hid]⟩
+    · exact ⟨r, mem_setReader_other hr (by rw [hid]; exact e), rfl, hc, rfl⟩
+  cases op with
+  | setRunId id =>
+    simp only [Disk.step]
+    split
+    · exact mem_map_close (fun x => Or.inr rfl) hr hc
+    · exact same _ (by simp [Disk.rescan, truncateGap]; repeat' split
+                       all_goals rfl)
+  | delRunId =>
+    simp only [Disk.step]
+    split
+    · exact same _ rfl
+    · exact mem_map_close (fun x => Or.inr rfl) hr hc
+  | newRdbWriter off size => exact mem_map_close (fun x => Or.inr rfl) hr hc
+  | rdbAppend chunk =>
+    apply same; simp only [Disk.step]; repeat' split
+    all_goals rfl
+  | rdbClose =>
+    simp only [Disk.step]
+    split
+    · split
+      · exact mem_map_close (f := fun x => if x.isAof then x else x.close)
+          (fun x => by by_cases hx : x.isAof = true <;> simp [hx]) hr hc
+      · exact same _ rfl
+    · exact same _ rfl
+  | newAofWriter off =>
+    simp only [Disk.step]
+    have h1 : ∃ r1 ∈ s.closeLive.readers, r1.id = r.id ∧ r1.isOpen = false ∧ r1.out = r.out := by
+      unfold Disk.closeLive
+      split
+      · exact same _ rfl
+      · rename_i g _
+        split
+        · exact mem_map_close (f := fun x => if x.holds g.left then x.close else x)
+            (fun x => by by_cases hx : x.holds g.left = true <;> simp [hx]) hr hc
+        · exact same _ rfl
+    obtain ⟨r1, hr1, hid1, hc1, hout1⟩ := h1
+    obtain ⟨r2, hr2, hid2, hc2, hout2⟩ :=
+      mem_map_close (f := fun x => if x.isAof then x.close else x)
+        (fun x => by by_cases hx : x.isAof = true <;> simp [hx]) hr1 hc1
+    exact ⟨r2, hr2, by rw [hid2, hid1], hc2, by rw [hout2, hout1]⟩
+  | aofAppend chunk =>
+    apply same
+    simp only [Disk.step]
+    have := appendLive_readers s chunk
+    cases hp : s.appendLive chunk with
+    | mk s' ok =>
+      rw [hp] at this
+      cases ok
+      · simp
+      · simpa using this
+  | aofClose =>
+    simp only [Disk.step]
+    unfold Disk.closeLive
+    split
+    · exact same _ rfl
+    · rename_i g _
+      split
+      · exact mem_map_close (f := fun x => if x.holds g.left then x.close else x)
+          (fun x => by by_cases hx : x.holds g.left = true <;> simp [hx]) hr hc
+      · exact same _ rfl
+  | gc =>
+    apply same; simp only [Disk.step, Disk.gc]; repeat' split
+    all_goals rfl
+  | openReader rid off crcOk =>
+    simp only [Disk.step, Disk.open]
+    repeat' split
+    all_goals first
+      | exact same _ rfl
+      | exact ⟨r, by simp; left; exact hr, rfl, hc, rfl⟩
+  | read rid n =>
+    simp only [Disk.step, Disk.read]
+    cases hf : findReader s.readers rid with
+    | none => exact same _ rfl
+    | some r0 =>
+      obtain ⟨h0, _⟩ := findReader_some hf
+      simp only []
+      by_cases ho : r0.isOpen = true
+      · simp only [ho, Bool.not_true, Bool.false_eq_true, if_false]
+        repeat' split
+        all_goals first
+          | exact same _ rfl
+          | exact viaSet r0 _ h0 rfl (fun hcl => by rw [ho] at hcl; cases hcl)
+      · have : r0.isOpen = false := by simpa using ho
+        simp only [this, Bool.not_false, if_true]
+        exact same _ rfl
+  | advAcquire rid =>
+    simp only [Disk.step, Disk.advAcquire]
+    cases hf : findReader s.readers rid with
+    | none => exact same _ rfl
+    | some r0 =>
+      obtain ⟨h0, _⟩ := findReader_some hf
+      simp only []
+      split
+      · rename_i hca
+        have ho : r0.isOpen = true := by
+          unfold Disk.canAdvance at hca; simp only [Bool.and_eq_true] at hca; exact hca.1.1.1.1
+        exact viaSet r0 _ h0 rfl (fun hcl => by rw [ho] at hcl; cases hcl)
+      · exact same _ rfl
+  | advRelease rid =>
+    simp only [Disk.step, Disk.advRelease]
+    cases hf : findReader s.readers rid with
+    | none => exact same _ rfl
+    | some r0 =>
+      obtain ⟨h0, _⟩ := findReader_some hf
+      simp only []
+      split
+      · rename_i hca
+        have ho : r0.isOpen = true := by simp only [Bool.and_eq_true] at hca; exact hca.1
+        exact viaSet r0 _ h0 rfl (fun hcl => by rw [ho] at hcl; cases hcl)
+      · exact same _ rfl
+  | closeReader rid =>
+    simp only [Disk.step, Disk.closeReader]
+    cases hf : findReader s.readers rid with
+    | none => exact same _ rfl
+    | some r0 =>
+      obtain ⟨h0, _⟩ := findReader_some hf
+      simp only []
+      exact viaSet r0 r0.close h0 rfl (fun _ => ⟨rfl, rfl⟩)
+
+/-! ### a valid reader keeps following the writer -/
+
+theorem findReader_of_mem {rs : List DReader} (hn : (rs.map (·.id)).Nodup) {r : DReader} (hr : r ∈ rs) :
+    findReader rs r.id = some r := by
+  unfold findReader
+  cases hf : rs.find? (fun x => x.id == r.id) with
+  | none =>
+    have := List.find?_eq_none.mp hf r hr
+    simp at this
+  | some x =>
+    have hx := List.find?_some hf
+    have hxm := List.mem_of_find?_eq_some hf
+    simp at hx
+    rw [eq_of_mem_of_id hn hxm hr hx]
+
+theorem contig_next {l : List DSeg} (hc : Contig l) {g : DSeg} (hg : g ∈ l) {r : Nat}
+    (hr : lastRight l = some r) (hlt : g.right < r) : ∃ nx ∈ l, nx.left = g.right := by
+  induction l generalizing g with
+  | nil => cases hg
+  | cons a t ih =>
+    cases t with
+    | nil =>
+      simp at hg; subst hg
+      simp [lastRight] at hr; omega
+    | cons b u =>
+      rw [lastRight_cons_cons] at hr
+      rcases List.mem_cons.mp hg with h | h
+      · subst h
+        exact ⟨b, by simp, hc.1.symm⟩
+      · obtain ⟨nx, hnx, hl⟩ := ih hc.2 h hr hlt
+        exact ⟨nx, List.mem_cons_of_mem _ hnx, hl⟩
+
+theorem reader_progress {s : Disk} (h : DInv s) {r : DReader} (hr : r ∈ s.readers)
+    (ho : r.isOpen = true) (ha : r.isAof = true) (hprev : r.prev = none)
+    (hlt : r.pos < s.hbase + s.hist.length) (n : Nat) (hn : 0 < n) :
+    (∃ bs, (s.read r.id n).2 = Out.data bs ∧ bs ≠ []) ∨ s.canAdvance r = true := by
+  obtain ⟨⟨g0, hg0, hc0, hl0, hr0⟩, _, _, _, _⟩ := (h.readersOk r hr ho).1 ha
+  have hfs : findSeg s.all r.cur = some g0 := by
+    rw [← hc0]; exact findSeg_of_mem h.contig (all_initNonempty h.nonempty) hg0
+  by_cases hin : r.pos < g0.right
+  · left
+    unfold Disk.read
+    rw [findReader_of_mem h.ids hr]
+    simp only [ho, Bool.not_true, Bool.false_eq_true, if_false, ha, if_true, hfs]
+    have hne : ((g0.data.drop (r.pos - g0.left)).take n) ≠ [] := by
+      intro he
+      have := congrArg List.length he
+      simp only [DSeg.right] at hin
+      simp at this
+      omega
+    have : ((g0.data.drop (r.pos - g0.left)).take n).isEmpty = false := by
+      simpa [List.isEmpty_iff] using hne
+    simp only [this, Bool.false_eq_true, if_false]
+    exact ⟨_, rfl, hne⟩
+  · right
+    have hpe : r.pos = g0.right := by omega
+    cases hlr : lastRight s.all with
+    | none =>
+      have := lastRight_eq_none.mp hlr
+      rw [this] at hg0; cases hg0
+    | some rr =>
+      have hend := h.lastEnd rr hlr
+      obtain ⟨nx, hnx, hnl⟩ := contig_next h.contig hg0 hlr (by omega)
+      have hfn : findSeg s.all r.pos = some nx := by
+        rw [hpe, ← hnl]; exact findSeg_of_mem h.contig (all_initNonempty h.nonempty) hnx
+      unfold Disk.canAdvance
+      rw [hpe] at hfn
+      simp [ho, ha, hprev, hfs, hfn, hpe]
 
 end GunYu.Store
